@@ -278,7 +278,7 @@ func (o *c05Oracle) final() {
 		}
 
 		for _, m := range missing {
-			if !s.w.c.Suf.Exists(m) {
+			if !s.w.sufAt(d.point.Height()).Exists(m) {
 				o.r.Fail("cross-point-influence", "missing-nodes", "MissingNodes(%s) lists %s who is not in the suffrage", pk, m)
 			}
 		}
